@@ -234,4 +234,43 @@ Section Loader.
                 if words_ok counts w then Some (firstn total img, Some w) else None
               else Some (firstn total img, None)
             else Some (firstn total img, None).
+
+  (* RecognizeBinary (IsBinaryFormat + ReadHeader, no MatchCheck): what the header decoder hands back *)
+  Record header_info := { h_order : nat; h_probing_multiplier : list byte; h_model_type : nat; h_has_vocabulary : bool;
+                          h_search_version : nat; h_counts : list byte }.
+
+  Definition recognize (img : list byte) : option header_info :=
+    if length img <=? sanity_size then None
+    else if negb (list_eqb (firstn sanity_size img) ref_sanity) then None
+    else
+      let fixed := firstn fixed_size (skipn sanity_size img) in
+      if length fixed <? fixed_size then None
+      else if negb (pm_ok (firstn 4 (skipn off_probing_multiplier fixed))) then None
+      else
+        let order := nth off_order fixed 0 in
+        let counts := firstn (8 * order) (skipn (sanity_size + fixed_size) img) in
+        if length counts <? 8 * order then None
+        else Some {| h_order := order; h_probing_multiplier := firstn 4 (skipn off_probing_multiplier fixed);
+                     h_model_type := le32 (skipn off_model_type fixed);
+                     h_has_vocabulary := negb (Nat.eqb (nth off_has_vocabulary fixed 0) 0);
+                     h_search_version := le32 (skipn off_search_version fixed); h_counts := counts |}.
 End Loader.
+
+(* ------------------------------------------------------------------------------------------ *)
+(* the header WriteHeader produces: memset 0, the reference Sanity, FixedWidthParameters field by field
+   (order: 1 byte; probing_multiplier: the 4 bytes of the float; model_type, search_version: 32-bit little endian;
+   has_vocabulary: 1 byte; the rest of the struct is padding left 0), then the counts, padded to a multiple of 8 *)
+Definition bytes_le32 (n : nat) : list byte :=
+  [n mod 256; (n / 256) mod 256; (n / 256 / 256) mod 256; (n / 256 / 256 / 256) mod 256].
+
+Definition make_fixed (order p0 p1 p2 p3 mtype hv version : nat) : list byte :=
+  [order; 0; 0; 0; p0; p1; p2; p3] ++ bytes_le32 mtype ++ [hv; 0; 0; 0] ++ bytes_le32 version.
+
+Definition make_header (order p0 p1 p2 p3 mtype hv version : nat) (counts : list byte) : list byte :=
+  ref_sanity ++ make_fixed order p0 p1 p2 p3 mtype hv version ++ counts ++
+  repeat zero (header_size order - (sanity_size + fixed_size + 8 * order)).
+
+(* the complete file: header, vocabulary table, vocab_pad zeros, search structure, vocabulary strings *)
+Definition expected_image (include_vocab : bool) (c : contents) : list byte :=
+  c_header c ++ c_vocab2 c ++ repeat zero (c_pad c) ++ c_search2 c ++ (if include_vocab then c_words c else []).
+
